@@ -31,7 +31,7 @@ ASSUMPTIONS = [
     "a falsy pattern counts as absent, as everywhere in the library",
 ]
 
-SAFE = "abAB01 .-_:/#?=&'(){}[]|\\^$*+é~@!,;%ß日"
+SAFE = "abAB01 .-_:/#?=&'(){}[]|\\^$*+é~@!,;%ß日😀𝔤"
 WILD = SAFE + "\"<>\n\t\r  \x00\x7f😀"
 
 
@@ -70,6 +70,8 @@ def features(recs):
         strings = [*spec.all_p(r), *spec.all_u(r), r.pattern or ""]
         if any(ord(ch) > 127 for s in strings for ch in s):
             f.add("non-ascii")
+        if any(ord(ch) > 0xFFFF for s in strings for ch in s):
+            f.add("astral")
         if any(ch.isspace() or not ch.isprintable() for s in strings for ch in s):
             f.add("ws-or-control")
         if r.pattern == "":
